@@ -27,6 +27,61 @@ pub struct ModularFrameSpec {
     pub sel: Sel,
     /// with local trees: group streams in odd TOC sections use this tree instead
     pub alt_tree: Option<Node>,
+    /// with `code.lz77` set: replace repeated runs of symbol values by LZ77 copies (0 = never; 1 = greedy, distances
+    /// written with the special two-dimensional codes where one denotes the distance; 2 = greedy, distances always
+    /// written as plain values >= 120)
+    pub lz77_copies: u32,
+    /// HOSTILE streams: replace `len` symbols of the global sub-bitstream starting at `pos` by one copy with this
+    /// distance value, whether or not the window holds the same values: (pos, len, dist_value)
+    pub lz77_force: Option<(usize, u32, u32)>,
+}
+
+/// Greedy LZ77 pass over the symbols of one sub-bitstream (`mult` = its distance multiplier, the largest channel width).
+pub fn lz77_compress(syms: &[Sym], mult: u32, lz: &crate::entropy::Lz77, mode: u32) -> Vec<Sym> {
+    let val = |s: &Sym| match *s {
+        Sym::Val { value, .. } => value,
+        Sym::Copy { .. } => unreachable!(),
+    };
+    let mut cands: Vec<u32> = vec![1, 2, 3, mult, mult + 1, mult.saturating_sub(1), 2 * mult, 2 * mult + 1, 7, 8 * mult + 7, 121, 130];
+    cands.retain(|&d| d >= 1);
+    cands.dedup();
+    let mut out = Vec::with_capacity(syms.len());
+    let mut i = 0usize;
+    while i < syms.len() {
+        let mut best = (0usize, 0u32);
+        for &d in &cands {
+            let d = d as usize;
+            if d > i {
+                continue;
+            }
+            let mut k = 0;
+            while i + k < syms.len() && val(&syms[i + k]) == val(&syms[i + k - d]) {
+                k += 1;
+            }
+            if k > best.0 {
+                best = (k, d as u32);
+            }
+        }
+        if best.0 >= lz.min_length as usize && best.0 >= 1 {
+            let d = best.1;
+            let special = if mode == 1 && mult != 0 { (0..120u32).find(|&v| crate::entropy::lz77_distance(v, mult) == d) } else { None };
+            let dist_value = match special {
+                Some(v) => v,
+                None if mult == 0 => d - 1,
+                None => d + 119,
+            };
+            let ctx = match syms[i] {
+                Sym::Val { ctx, .. } => ctx,
+                _ => unreachable!(),
+            };
+            out.push(Sym::Copy { ctx, len: best.0 as u32, dist_value });
+            i += best.0;
+        } else {
+            out.push(syms[i]);
+            i += 1;
+        }
+    }
+    out
 }
 
 impl ModularFrameSpec {
@@ -46,6 +101,8 @@ impl ModularFrameSpec {
             lf_global_prefix: None,
             sel: Sel::default(),
             alt_tree: None,
+            lz77_copies: 0,
+            lz77_force: None,
         }
     }
 }
@@ -91,6 +148,8 @@ pub struct EncodedFrame {
     pub num_sections: usize,
     pub section_sizes: Vec<u32>,
     pub header_bytes: usize,
+    /// LZ77 copies written (all sub-bitstreams)
+    pub lz77_copies: usize,
 }
 
 /// Writes one Modular-encoded frame (header, TOC, sections).  `frame_w`/`frame_h`: frame size in
@@ -212,9 +271,28 @@ pub fn write_modular_frame(img: &ImageHeader, spec: &ModularFrameSpec) -> Encode
                 }
             }
         }
+        if let (Some(lz), true) = (&spec.code.lz77, spec.lz77_copies != 0) {
+            // the multiplier is the largest width over the channel list of the sub-bitstream, channels without samples (zero
+            // height) included: this is what libjxl's loop does as well
+            let mult = sub.iter().map(|c| c.w as u32).max().unwrap_or(0);
+            syms = lz77_compress(&syms, mult, lz, spec.lz77_copies);
+        }
         stream_syms.push(syms);
     }
+    if let (Some(lz), true) = (&spec.code.lz77, spec.lz77_copies != 0) {
+        let mult = channels[..global_end].iter().map(|c| c.w as u32).max().unwrap_or(0);
+        global_syms = lz77_compress(&global_syms, mult, lz, spec.lz77_copies);
+    }
 
+    if let (Some(_), Some((pos, len, dv))) = (&spec.code.lz77, spec.lz77_force) {
+        if pos + len as usize <= global_syms.len() {
+            let ctx = match global_syms[pos] {
+                Sym::Val { ctx, .. } | Sym::Copy { ctx, .. } => ctx,
+            };
+            global_syms.splice(pos..pos + len as usize, [Sym::Copy { ctx, len, dist_value: dv }]);
+        }
+    }
+    let lz77_copies = global_syms.iter().chain(stream_syms.iter().flatten()).filter(|s| matches!(s, Sym::Copy { .. })).count();
     let tree_syms = tree.tokens();
     let tree_spec = CodeSpec::build(6, &tree_syms, &spec.tree_code);
     let write_tree = |w: &mut BitWriter, syms_for_code: &[Sym]| -> CodeSpec {
@@ -308,7 +386,7 @@ pub fn write_modular_frame(img: &ImageHeader, spec: &ModularFrameSpec) -> Encode
     for &s in &order {
         bytes.extend_from_slice(&section_bytes[s]);
     }
-    EncodedFrame { bytes, channels, num_sections: n_sections, section_sizes: sizes, header_bytes }
+    EncodedFrame { bytes, channels, num_sections: n_sections, section_sizes: sizes, header_bytes, lz77_copies }
 }
 
 /// Whole bare codestream: image header + frames.
